@@ -801,7 +801,7 @@ def read_cab(data):
     v.info.update(reserve=reserve, cbcab=cbcab, after=data[cbcab:], cofffiles=cofffiles, blocks=nblocks, files=nfiles,
                   folder_offsets=[f[0] for f in folders])
     # signature descriptor per the Authenticode cabinet convention: reserve = {u32 0x00100000, u32 offset, u32 size, ...}
-    if len(reserve) >= 12 and u32(reserve, 4):
+    if len(reserve) >= 12 and reserve[:4] == b"\0\0\x10\0" and u32(reserve, 4):
         so, sz = u32(reserve, 4), u32(reserve, 8)
         if so != cbcab or so + sz != len(data):
             v.bad("cab: reserve area describes a signature at %d+%d, cbCabinet=%d file size=%d" % (so, sz, cbcab, len(data)))
@@ -819,7 +819,7 @@ def cmp_cab(vin, vout):
             d.append("offsets are not shifted by one constant: %s" % sorted(shift))
     ri = vin.info.get("reserve", b"")
     # an input reserve area that is not a signature descriptor is the author's data and must survive
-    if ri and not (len(ri) >= 12 and ri[:4] in (b"\0\0\x10\0", b"\0\0\0\0")):
+    if ri.strip(b"\0") and not (len(ri) >= 12 and ri[:4] == b"\0\0\x10\0"):
         if not vout.info.get("reserve", b"").startswith(ri):
             d.append("header reserve area of the input (%s) not kept" % H(ri))
     return d
@@ -1176,13 +1176,14 @@ def read_xar(data):
     if t is None:
         v.bad("xar: no <toc>")
         return v
-    v.add("header", "version=%d checksum-alg=%d" % (ver, alg))
+    v.add("header", "version=%d" % ver)
+    v.info["checksum_alg"] = alg
     ck = t.find("checksum")
     hashes = {"sha1": hashlib.sha1, "md5": hashlib.md5, "sha256": hashlib.sha256, "sha512": hashlib.sha512}
     if ck is not None:
         style = ck.get("style", "")
         off, size = int(ck.findtext("offset")), int(ck.findtext("size"))
-        v.add("checksum-style", style)
+        v.info["checksum_style"] = style
         if style in hashes:
             if hashes[style](data[hsize:hsize + tclen]).digest() != data[heap + off:heap + off + size]:
                 v.bad("xar: TOC checksum in the heap does not match the compressed TOC")
@@ -1341,8 +1342,6 @@ def read_macho_slice(data, v, pfx):
                 v.bad("macho: %s__LINKEDIT %d+%d does not end at the end of the slice %d" % (pfx, fo, fs, len(data)))
             if vs < fs:
                 v.bad("macho: %s__LINKEDIT vmsize %d < filesize %d" % (pfx, vs, fs))
-        if o % 16:
-            v.bad("macho: %scode signature offset %d not 16-byte aligned" % (pfx, o))
 
 
 def read_macho(data):
